@@ -517,6 +517,22 @@ pub fn generate(rng: &mut Rng, tier: Tier, emit: &mut dyn FnMut(String)) {
         }
     }
 
+    // SerializedValuesIterator::nth over buffers with NULL / unset / empty / long cells
+    for _ in 0..(400 * scale) {
+        let m = rng.below(10) as usize;
+        let vals: Vec<String> = (0..m)
+            .map(|i| match rng.below(6) {
+                0 => "N".to_owned(),
+                1 => "U".to_owned(),
+                2 => "-".to_owned(),
+                _ => gen_val(rng, 0x80 + i as u8),
+            })
+            .collect();
+        let calls = rng.range(1, 5) as usize;
+        let ks: Vec<u64> = (0..calls).map(|_| rng.below(4)).collect();
+        emit(format!("svnth {} {}", nat_list(&ks), vals.join(" ")).trim_end().to_owned());
+    }
+
     // partitioner selection by name
     let names = [
         "com.scylladb.dht.CDCPartitioner",
@@ -910,6 +926,46 @@ pub fn run(case: &str, ctx: &mut Ctx) -> String {
                 Ok(t) => format!("ok {}", t),
                 Err(n) => format!("err tooLong {}", n),
             }
+        }
+        ("svnth", n) if n >= 2 => {
+            let Some(ks) = parse_lens(w[1]) else { return "bad-case".into() };
+            let Some(vals) = w[2..].iter().map(|s| parse_val(s)).collect::<Option<Vec<Val>>>() else {
+                return "bad-case".into();
+            };
+            let blob = ColumnType::Native(NativeType::Blob);
+            let mut sv = SerializedValues::new();
+            for v in bind(&vals) {
+                sv.add_value(&v, &blob).unwrap();
+            }
+            let mut it = sv.iter();
+            let mut pos = 0usize; // oracle: plain indexing into the bound values
+            let mut out = Vec::new();
+            for k in ks {
+                let got = it.nth(k);
+                let expected = vals.get(pos + k);
+                pos = (pos + k + 1).min(vals.len() + 1);
+                let shown = match &got {
+                    None => "none".to_owned(),
+                    Some(scylla_cql_core::frame::types::RawValue::Null) => "N".to_owned(),
+                    Some(scylla_cql_core::frame::types::RawValue::Unset) => "U".to_owned(),
+                    Some(scylla_cql_core::frame::types::RawValue::Value(b)) => format!("v:{}", hex(b)),
+                };
+                let want = match expected {
+                    None => "none".to_owned(),
+                    Some(Val::Null) => "N".to_owned(),
+                    Some(Val::Unset) => "U".to_owned(),
+                    Some(Val::Bytes(b)) => format!("v:{}", hex(b)),
+                };
+                if shown != want {
+                    ctx.fail(format!("SerializedValues::iter().nth({}) gave {}, the bound value at that position is {}", k, shown, want));
+                }
+                if got.is_none() {
+                    pos = vals.len() + 1;
+                    // the model iterator stays exhausted
+                }
+                out.push(shown);
+            }
+            out.join(" ")
         }
         ("pname", 2) => {
             let name: Option<String> = if w[1] == "N" {
